@@ -40,8 +40,14 @@ def sig_of(kind, detail, case):
 def run_property(chk, pid, want_parse=True, want_build=False, quick_n=6000, thorough_n=300000):
     import translator.gen_tags as gen_tags
     gen_tags.main([])
-    problems = chk.prove([f"TinsModel.Props.{pid}"], [f"Audit/{pid}.lean"] + FAMILY_AUDITS,
+    # constants / limits the wire models restate, read from the current source and tied in Props/Limits/Wire.lean
+    # (which also compares the wire model's RadioTap field table and CRC table with the generated ones)
+    from translator import gen_limits, gen_radiotap, gen_crc
+    gen_limits.main([]); gen_radiotap.main([]); gen_crc.main([])
+    problems = chk.prove([f"TinsModel.Props.{pid}", "TinsModel.Props.Limits.Wire"],
+                         [f"Audit/{pid}.lean", "Audit/LimitsWire.lean"] + FAMILY_AUDITS,
                          want_leanchecker=(chk.tier == "thorough"))
+    problems = gen_limits.name_failures(chk, problems, "Wire")       # name the tie theorems that fail
     rng = random.Random(chk.seed)
     n = quick_n if chk.tier == "quick" else thorough_n
     ops = []
@@ -60,6 +66,7 @@ def run_property(chk, pid, want_parse=True, want_build=False, quick_n=6000, thor
             if hasattr(g, "gen_build"):
                 ops += g.gen_build(rng, n // 4)
         ops += builtin_build_ops(rng, max(200, n // 20))
+        ops += limit_boundary_ops()
     total = collections_counter()
     B = 20000
     i = 0
@@ -86,6 +93,9 @@ def run_property(chk, pid, want_parse=True, want_build=False, quick_n=6000, thor
                        "result) pairs")
     chk.trusted += ["correspondence harness harness/wire_main.cpp + wire_<family>.h; generators checks/wire_common.py, checks/wire_gen_*.py",
                     "translator/gen_tags.py (next-protocol tables regenerated from src/detail/pdu_helpers.cpp on this run)",
+                    "translator/gen_limits.py (header sizes, minimum frame sizes, RFC 4884 minimum and units, header-length maxima, "
+                    "defaults: compiled probe + preprocessed function bodies at named anchors; tied to the wire models' numerals by "
+                    "Props/Limits/Wire.lean)",
                     "g++ 12 / ASan+UBSan(-enum)+LSan build of /repo's working tree with -DTINS_VERIF_HOOKS"]
     chk.assumptions += [
         "classes outside `modelled_classes` are covered by the implementation-side oracle only (no Lean model yet): "
@@ -153,6 +163,54 @@ def builtin_build_ops(rng, n):
             if rng.random() < 0.3:
                 ops.append("show")
         ops.append("show")
+    return ops
+
+
+def limit_boundary_ops():
+    """directed API programs at the limits the source CURRENTLY has (translator/gen_limits.py): payloads one octet short of
+    / at / beyond the minimum frame sizes and the RFC 4884 minimum, option lists that fill the 4-bit header-length fields
+    and exceed them by one word, extension headers around a multiple of the IPv6 unit.  On the unchanged tree these repeat
+    boundaries the family generators already have; after a change of a constant they are the cases that cross it."""
+    from translator import gen_limits
+    v = {k: x for k, x in gen_limits.values().items() if x is not None}
+    ops = []
+    z = lambda n: "00" * max(0, n) if n > 0 else "-"
+    eth, q = v.get("hdrEthernetII", 14), v.get("hdrDot1Q", 4)
+    for m in sorted({60, v.get("ethMinFrame", 60), v.get("ethMinFrameText", 60)}):
+        for n in (m - eth - 1, m - eth, m - eth + 1):
+            if 0 < n < 1500:
+                ops += ["new", "push EthernetII", f"push RawPDU {z(n)}", "show"]
+    for m in sorted({50, v.get("dot1qMin", 50), v.get("dot1qMinText", 50)}):
+        for n in (m - q - 1, m - q, m - q + 1):
+            if 0 < n < 1500:
+                ops += ["new", "push EthernetII", "push Dot1Q 5 1", f"push RawPDU {z(n)}", "show",
+                        "new", "push Dot1Q 5 1", f"push RawPDU {z(n)}", "show"]
+    mins = sorted({128} | {v[k] for k in ("icmpMinPayload", "icmpMinPayloadTrailer", "icmpMinPayloadWrite",
+                                          "icmp6MinPayloadTrailer", "icmp6MinPayloadWrite") if k in v and 8 <= v[k] < 1400})
+    for m in mins:
+        for n in (m - 8, m - 4, m, m + 4, m + 8):
+            if n > 0 and n % 8 == 0:
+                ops += ["new", "push ICMPv6 1", "set 0 add_extension 1 1 01020304", "set 0 use_length_field 1",
+                        f"push RawPDU {z(n)}", "show"]
+            if n > 0 and n % 4 == 0:
+                ops += ["new", "push ICMP 11", "set 0 add_extension 1 1 01020304", "set 0 use_length_field 1",
+                        f"push RawPDU {z(n)}", "show",
+                        "new", "push ICMP 3", "set 0 add_extension 1 1 01020304", f"push RawPDU {z(n)}", "show"]
+    iu, im, ih = v.get("ipHeadLenUnit", 4), v.get("ipMaxHeadLen", 15), v.get("hdrIp", 20)
+    for total in sorted({40, iu * im - ih}):
+        for n in (total - iu, total, total + iu):
+            if 2 < n < 600:
+                ops += ["new", "push IP 0a000001 0a000002", f"set 0 add_option 130 {z(n - 2)}", "push RawPDU 0102", "show"]
+    tu, tm, th = v.get("tcpDataOffsetUnit", 4), v.get("tcpMaxDataOffset", 15), v.get("hdrTcp", 20)
+    for total in sorted({40, tu * tm - th}):
+        for n in (total - tu, total, total + tu):
+            if 2 < n < 600:
+                ops += ["new", "push TCP 80 1234", f"set 0 add_option 30 {z(n - 2)}", "push RawPDU 0102", "show"]
+    u = v.get("ipv6ExtUnit", 8)
+    for k in (1, 2, 3):
+        for n in (u * k - 3, u * k - 2, u * k - 1):
+            if 0 < n < 600:
+                ops += ["new", "push IPv6", "set 0 next_header 253", f"set 0 add_header 60 {z(n)}", "push RawPDU 0102", "show"]
     return ops
 
 
